@@ -453,6 +453,76 @@ def match_known(known, prop, claim_name, label, detail):
 
 # ----------------------------------------------------------------------------- main driver
 
+def concolic_job(claim, seed, conn):
+    """translator validation, shimmed side: run the claim on Terms that carry shadow floats (branches follow the
+    floats), return the inputs drawn and the values observed at every h.eq"""
+    from symreal.replay import observed_values
+    c, h, status, info = run_path(claim, [], mode='concolic', seed=seed)
+    conn.send(('concolic', dict(status=status, info=info, inputs=h.used, observed=observed_values(h),
+                                violations=[v[0] for v in h.violations])))
+    conn.send(('done',))
+
+
+def validate_translator(prop, claims, seed, pool, max_claims=120):
+    """run each (sampled) claim once through the shims concolically and once natively without shims on the same
+    random inputs; compare exception status, assertion outcome and every observed value"""
+    import random as _random
+    sel = list(claims)
+    _random.Random(seed + 1).shuffle(sel)
+    sel = [c for c in sel if not c.novalidate][:max_claims]
+    got = {}
+
+    def on_msg(key, msg):
+        if msg[0] == 'concolic':
+            got[key] = msg[1]
+
+    pool.run([(c.name, concolic_job, (c, seed), 120) for c in sel], on_msg, lambda key, budget=False: None, label=f'{prop} validate')
+    usable = [(n, g) for n, g in got.items() if g['status'] in ('ok', 'exc')]
+    blobs = [dict(property=prop, claim=n, inputs=g['inputs'], want_observed=True) for n, g in usable]
+    path = os.path.join(ROOT, 'replays', prop)
+    os.makedirs(path, exist_ok=True)
+    bf = os.path.join(path, '_validation_batch.json')
+    json.dump(blobs, open(bf, 'w'))
+    env = dict(os.environ, PYTHONPATH=os.environ.get('VERIF_REPO', '/repo') + os.pathsep + ROOT, MPLBACKEND='Agg', PYTHONDONTWRITEBYTECODE='1')
+    outs = None
+    try:
+        p = subprocess.run([PY, '-m', 'symreal.replay', '--batch', bf], capture_output=True, text=True, timeout=900, env=env, cwd=ROOT)
+        for line in p.stdout.splitlines():
+            if line.startswith('BATCH-RESULT '):
+                outs = json.loads(line[len('BATCH-RESULT '):])
+    except subprocess.TimeoutExpired:
+        pass
+    rep = dict(claims_sampled=len(sel), compared=0, values_compared=0, mismatches=[], skipped=len(sel) - len(usable))
+    if outs is None:
+        rep['error'] = 'native batch did not finish'
+        return rep
+    for (n, g), o in zip(usable, outs):
+        if o.get('status') in ('harness-error', 'assumption-failed'):
+            rep['skipped'] += 1
+            continue
+        rep['compared'] += 1
+        nat_exc = any(v[0].startswith('unexpected-exception') for v in o.get('violations', []))
+        if (g['status'] == 'exc') != nat_exc:
+            rep['mismatches'].append(f"{n}: exception on one side only (shimmed {g['status']} {g.get('info')}, native {o.get('violations', [])[:1]})")
+            continue
+        nat = o.get('observed', [])
+        for (l1, v1), (l2, v2) in zip(g['observed'], nat):
+            if l1 != l2 or len(v1) != len(v2):
+                rep['mismatches'].append(f'{n}: observation order differs at {l1!r} / {l2!r}')
+                break
+            for a, b in zip(v1, v2):
+                if a is None or b is None:
+                    continue
+                rep['values_compared'] += 1
+                if abs(a - b) > 1e-7 * max(1.0, abs(a), abs(b)):
+                    rep['mismatches'].append(f'{n}: {l1}: shimmed {a!r} vs native {b!r}')
+                    break
+            else:
+                continue
+            break
+    return rep
+
+
 def source_hashes(funcs):
     out = {}
     for f in funcs:
@@ -472,6 +542,7 @@ def main(argv=None):
     ap.add_argument('--only', help='regex on claim names')
     ap.add_argument('--timeout', type=float)
     ap.add_argument('--no-evidence', action='store_true')
+    ap.add_argument('--no-validate', action='store_true')
     ap.add_argument('-v', action='store_true')
     a = ap.parse_args(argv)
     prop = a.prop.upper()
@@ -516,6 +587,11 @@ def main(argv=None):
         for e in errors:
             print('HARNESS-ERROR exploring', e[0], e[1], '\n', e[2])
         return 3
+
+    # ---- stage 1b: translator validation (shims vs. the unshimmed library on the same random inputs)
+    validation = None
+    if not a.no_validate:
+        validation = validate_translator(prop, claims, seed, pool, max_claims=120 if tier == 'quick' else 400)
 
     # ---- stage 2: solving
     results = {}    # (claim, pathidx) -> dict(feas=..., obl={i: res})
@@ -755,6 +831,11 @@ def main(argv=None):
             print('  not-encodable:', s)
         if vacuous:
             print('  NO-FEASIBLE-PATH (vacuity not excluded):', vacuous)
+        if validation is not None:
+            print(f"  translator validation: {validation['compared']} claims / {validation['values_compared']} values compared, "
+                  f"{len(validation['mismatches'])} mismatches, {validation['skipped']} skipped")
+            for mm in validation['mismatches'][:10]:
+                print('    VALIDATION-MISMATCH:', mm[:300])
 
     if not a.no_evidence and not a.only:
         funcs = getattr(hmod, 'FUNCS', lambda: [])()
@@ -776,6 +857,7 @@ def main(argv=None):
                 queries=stats['queries'], solver_seconds=round(stats['solver_s'], 2), per_query_timeout_s=qto,
                 solver=f'z3 {z3.get_version_string()} (default tactic, then qfnra-nlsat)',
                 functions_encoded=source_hashes(funcs), bounds=getattr(hmod, 'BOUNDS', ''),
+                translator_validation=validation,
                 known_findings_matched=[k['id'] for k, _ in known_hit.values()],
                 samples=samples or [dict(note='all obligations constant-folded')],
                 exhaustive=False),
